@@ -794,7 +794,10 @@ def format_docstring(obj: model.Documentable) -> Tag:
         ret(tags.p(class_='undocumented')("Undocumented"))
     else:
         assert obj.parsed_docstring is not None, "ensure_parsed_docstring() did not do it's job"
-        stan = safe_to_stan(obj.parsed_docstring, source.docstring_linker, source, fallback=format_docstring_fallback)
+        # The docstring is rendered on the page of obj: that is not the page the linker of the source remembers
+        # when the docstring is inherited, or when the linker was created before the object was re-exported.
+        with source.docstring_linker.switch_context(obj):
+            stan = safe_to_stan(obj.parsed_docstring, source.docstring_linker, source, fallback=format_docstring_fallback)
         ret(unwrap_docstring_stan(stan))
 
     fh = FieldHandler(obj)
@@ -802,8 +805,9 @@ def format_docstring(obj: model.Documentable) -> Tag:
         fh.set_param_types_from_annotations(obj.annotations)
     if source is not None:
         assert obj.parsed_docstring is not None, "ensure_parsed_docstring() did not do it's job"
-        for field in obj.parsed_docstring.fields:
-            fh.handle(Field.from_epydoc(field, source))
+        with source.docstring_linker.switch_context(obj):
+            for field in obj.parsed_docstring.fields:
+                fh.handle(Field.from_epydoc(field, source))
     if isinstance(obj, model.Function):
         fh.resolve_types()
     ret(fh.format())
